@@ -363,6 +363,34 @@ func lifecycleOracleOn(c *Ctx, evs []vh.Event, cfgExtensions []string) {
 			}
 		}
 	}
+	// invoke-runtime-done with an error status carries the type of the first fault (since the last clear);
+	// "Sandbox.Failure" / none only when no fault was recorded
+	for _, e := range stream {
+		if e.Op != "InvokeRuntimeDone" || e.Extra["status"] == "success" || e.Extra["status"] == "timeout" {
+			continue
+		}
+		lower := int64(0)
+		for _, x := range evs {
+			if x.Src == "hook" && x.Kind == "hit" && x.Op == "rapidCtx.beforeClear" && x.Seq < e.Seq {
+				lower = x.Seq
+			}
+		}
+		fs := faultBefore(lower, e.Seq)
+		want := "Sandbox.Failure"
+		for _, f := range fs {
+			if !strings.HasSuffix(f, "?") {
+				want = f
+				break
+			}
+		}
+		ok := e.Etype == want
+		for _, f := range fs {
+			if e.Etype == strings.TrimSuffix(f, "?") {
+				ok = true
+			}
+		}
+		c.Check(ok, "invoke_error_type_truthful", "C15/invoke-error-type/"+e.Etype+"-expected-"+want, fmt.Sprintf("invoke-runtime-done (%s) error type %q, faults since the last clear %v", e.Extra["status"], e.Etype, fs), nil)
+	}
 	// invoke-runtime-done success => the runtime posted its response and asked for next before it
 	curReq = ""
 	for _, e := range stream {
